@@ -422,16 +422,31 @@ var c17Msgs = []string{
 	"5.7.1 code-like\n5.7.1 again", "tab\there", "a", "550 looks like a reply", "-dash", "multi\n5.1.1 second looks coded",
 }
 
+// c17GenMsg draws a message text: one of the listed shapes, or a string put
+// together from pieces that matter to a reply codec (line breaks, padding,
+// code-looking and reply-looking tokens, hyphens, non-ASCII, tabs).
+func c17GenMsg(t *rapid.T, label string) string {
+	if rapid.Bool().Draw(t, label+"_listed") {
+		return rapid.SampledFrom(c17Msgs).Draw(t, label)
+	}
+	pieces := []string{"a", "word", " ", "  ", "\n", "\n", "5.1.1", "5.1.1 ", "2.0.0 ", "4.", ".", "-", "250", "550 ", "550-", "é", "€", "\t", ":", "<x@y>", "%s", "%", "\\"}
+	var sb strings.Builder
+	for i, n := 0, rapid.IntRange(1, 7).Draw(t, label+"_n"); i < n; i++ {
+		sb.WriteString(rapid.SampledFrom(pieces).Draw(t, label+"_piece"))
+	}
+	return sb.String()
+}
+
 func c17GenDecision(t *rapid.T) harness.Decision {
 	if rapid.IntRange(0, 5).Draw(t, "plain") == 0 {
-		m := rapid.SampledFrom(c17Msgs).Draw(t, "pmsg")
+		m := c17GenMsg(t, "pmsg")
 		if m == "" {
 			m = "x"
 		}
 		return harness.Decision{Kind: "plain", Msg: m}
 	}
 	code := rapid.SampledFrom([]int{421, 450, 451, 452, 455, 499, 501, 503, 504, 521, 550, 551, 552, 553, 554, 555, 571, 599}).Draw(t, "code")
-	d := harness.Decision{Kind: "smtp", Code: code, Msg: rapid.SampledFrom(c17Msgs).Draw(t, "msg")}
+	d := harness.Decision{Kind: "smtp", Code: code, Msg: c17GenMsg(t, "msg")}
 	switch rapid.IntRange(0, 4).Draw(t, "enh") {
 	case 0:
 		d.Enh = [3]int{0, 0, 0}
